@@ -17,6 +17,15 @@ const (
 	vpCfgEnd = "route add svc-end end.com/ http://e:1/"
 )
 
+// an invalid configuration larger than the scanner's read chunk whose error is on the first line
+func vpBigBad() string {
+	s := vpCfgBad + "\n"
+	for i := 0; i < 160; i++ {
+		s += "route add svc-x x.com/ http://x:1/\n"
+	}
+	return s
+}
+
 type vpUpdate struct {
 	manual bool
 	text   string
@@ -43,6 +52,8 @@ func (b *vpBackend) WatchServices() chan string    { return b.svc }
 func (b *vpBackend) WatchManual() chan string      { return b.man }
 func (b *vpBackend) WatchNoRouteHTML() chan string { return nil }
 
+func vpInvalid(text string) bool { return len(text) >= len(vpCfgBad) && text[:len(vpCfgBad)] == vpCfgBad }
+
 func vpRouted(host string) bool {
 	return route.GetTable().LookupHost(host, route.Picker["rr"]) != nil
 }
@@ -58,7 +69,7 @@ func (b *vpBackend) expected(n int) (a, bb, end bool) {
 		} else {
 			svc = u.text
 		}
-		if svc != vpCfgBad && man != vpCfgBad {
+		if !vpInvalid(svc) && !vpInvalid(man) {
 			a = svc == vpCfgA && man != vpManDel
 			bb = svc == vpCfgB
 			end = svc == vpCfgEnd
@@ -107,11 +118,14 @@ func VPH_C02_watch() {
 				u.text = "# nothing"
 			}
 		} else {
-			switch vp.Choice("service-text", 3) {
+			switch vp.Choice("service-text", 4) {
 			case 0:
 				u.text = vpCfgA
 			case 1:
 				u.text = vpCfgB
+			case 2:
+				u.text = vpBigBad()
+				vp.Cover("large-invalid-service")
 			default:
 				u.text = vpCfgBad
 				vp.Cover("invalid-service")
@@ -142,7 +156,7 @@ func VPH_C02_watch() {
 			continue
 		}
 		b.callIdx = append(b.callIdx, i)
-		if svc != vpCfgBad && man != vpCfgBad {
+		if !vpInvalid(svc) && !vpInvalid(man) {
 			last = next
 		}
 	}
